@@ -139,14 +139,17 @@ class OhNoz(Exception):
 
 
 class Recorder:
-    """out_stream / err_stream stand-in: records writes"""
+    """out_stream / err_stream stand-in: records writes; `delay` makes it a slow consumer"""
 
-    def __init__(self):
+    def __init__(self, delay=0.0):
         self.writes = []
         self.flushes = 0
+        self.delay = delay
         self.lock = threading.Lock()
 
     def write(self, s):
+        if self.delay:
+            time.sleep(self.delay)
         with self.lock:
             self.writes.append(s)
         return len(s)
@@ -721,9 +724,11 @@ def run_scripted(case):
     enc_from = case.get("enc_from", "kwarg")
     if enc_from == "config":
         overrides["run"] = {"encoding": case.get("enc", "utf-8")}
+    elif case.get("enc_cfg"):
+        overrides["run"] = {"encoding": case["enc_cfg"]}     # a config value the keyword must beat
     ctx = Context(Config(overrides=overrides)) if overrides else Context()
     runner = cls(ctx, env, start_error=case.get("start_error"))
-    out_rec, err_rec = Recorder(), Recorder()            # explicit out_stream / err_stream objects
+    out_rec, err_rec = Recorder(case.get("slow_out", 0.0)), Recorder()   # explicit out_stream / err_stream objects
     sys_out, sys_err = Recorder(), Recorder()            # what sys.stdout / sys.stderr receive meanwhile
     watcher = RecordingWatcher()
     kwargs = dict(
